@@ -6,7 +6,7 @@ D=/var/tmp/try-$$
 git -C /repo worktree add --detach $D HEAD >/dev/null 2>&1 || exit 2
 git -C $D apply "$P" || { git -C /repo worktree remove --force $D; exit 2; }
 for c in "$@"; do
-	LIBCPERCIVA_REPO=$D ${TIER:+VERIF_TIER=$TIER} /verif/check $c ${TIER:+--tier $TIER} > /var/tmp/try-$$.out 2>&1
+	LIBCPERCIVA_REPO=$D /verif/check $c ${TIER:+--tier $TIER} > /var/tmp/try-$$.out 2>&1
 	echo "$c exit=$? $(grep -c '^VIOLATION' /var/tmp/try-$$.out) violation lines; keys: $(grep -o 'VIOLATION property=[A-Z0-9]* key=[^ ]*' /var/tmp/try-$$.out | sed 's/.*key=//' | sort -u | head -6 | tr '\n' ' ')"
 	tail -1 /var/tmp/try-$$.out
 done
